@@ -24,7 +24,7 @@ CONSTANTS
   Reps,           \* repetitions per setting
   WithSerial,     \* also the build without OpenMP
   WithAsan,       \* also the AddressSanitizer/UBSan build (one run per case)
-  Groups,         \* trace: set of [kernel, case, variant, runs : set of run records]
+  Groups,         \* trace: set of [kernel, case, variant, indexmaps, noncontig, p2sprefix, runs : set of run records]
   Glue            \* trace: set of glue records (see GlueOK)
 
 VARIABLES phase, cfg, grp
@@ -68,8 +68,25 @@ GlueOK(x) ==
   /\ x.kernel \in Kernels
   /\ x.dtypes \subseteq {x.ctype}
   /\ x.maxaxis < x.minndim
-(* every kernel is exercised, in both variants where it has free data       *)
+(* every kernel is exercised                                                *)
 Covered == \A k \in Kernels : \E g \in Groups : g.kernel = k
+
+(* Kernels that scan the supercell for the images of a primitive atom       *)
+(* (`s2p_map[k] == p2s_map[j]`) or address rows through p2s / fc_index_map  *)
+(* must be exercised on inputs where the Python layer's maps are not the    *)
+(* trivial ones: some primitive atom whose images are NOT one consecutive   *)
+(* block of supercell indices (interleaved species with a centring          *)
+(* primitive matrix), and a p2s-like map that is not 0..n-1.  Otherwise an  *)
+(* early-terminating scan or a row/prefix confusion is invisible.  The      *)
+(* facts are projected from the recorded argument tuples by the harness.    *)
+IndexMapKernels == {"transform_dynmat_to_fc", "dynamical_matrices_with_dd_openmp_over_qpoints",
+                    "derivative_dynmat", "perm_trans_symmetrize_compact_fc", "transpose_compact_fc"}
+IndexMapCovered ==
+  \A k \in IndexMapKernels \cap Kernels :
+     /\ \E g \in Groups : g.kernel = k /\ g.indexmaps /\ g.noncontig
+     /\ \E g \in Groups : g.kernel = k /\ g.indexmaps /\ ~g.p2sprefix
+     /\ \E g \in Groups : g.kernel = k /\ g.indexmaps /\ g.noncontig /\ g.variant = "random"
+     /\ \A g \in Groups : g.kernel = k => g.indexmaps
 
 -----------------------------------------------------------------------------
 (* Plan: enumerate the matrix (spec -> code); Check: judge groups            *)
@@ -93,4 +110,5 @@ ImplCoversMatrix          == InCheck => ReqMatrix(grp)
 ImplKernelKnown           == InCheck => ReqKernelKnown(grp)
 ImplGlue                  == (phase = "glue") => GlueOK(grp)
 ImplAllKernelsCovered     == (phase = "cover") => Covered
+ImplIndexMapCoverage      == (phase = "cover") => IndexMapCovered
 =============================================================================
